@@ -188,7 +188,7 @@ def r11(ctx, cfg):
 def r10(ctx, cfg):
     """"each kind of ... query ... is handed, with its payload intact, to the module ... for that kind" - and on to the contract: the
     Smart arm of the wasm module's query hands (validated contract_addr, api, storage, querier, block, msg as it is) to
-    query_smart, which runs `handler.query(deps, env, msg)` with that very message inside with_storage_readonly of that address"""
+    query_smart, which runs `handler.query(deps, env, msg)` with that very message on the window / Env of that address"""
     F, P = cfg.facts, cfg.prov
     R = "C17.R10"
     key = "<wasm::WasmKeeper as wasm::Wasm>::query"
@@ -214,15 +214,22 @@ def r10(ctx, cfg):
     g = ctx.need_fn(R, k2)
     if g is not None:
         qs = [(h, b, t) for h in F.lexical(k2) for b, t in h.calls() if t["callee"]["key"] == "contracts::Contract::query"]
-        ws = q.calls(g, "wasm::WasmKeeper::with_storage_readonly")
-        ok = len(qs) == 1 and len(ws) == 1
+        ok = len(qs) == 1
         if ok:
+            # (called in place or in a closure handed to a wrapper: what it receives is what counts)
             h, b, t = qs[0]
             a = P.call_args(h, t, b)
-            wa = P.call_args(g, ws[0][1], ws[0][0])
-            ok = is_param(a[3], "msg") and h.key != k2 and is_param(wa[5], "address") and is_param(wa[2], "storage") and is_param(wa[3], "querier") and is_param(wa[4], "block")
-        ctx.ob(R, k2, "contract-queried-with-the-message", ok, "query_smart does not run handler.query(deps, env, msg) inside with_storage_readonly(.., address, ..)", fn=g,
-               sample="with_storage_readonly(api, storage, querier, block, address, |h, deps, env| h.query(deps, env, msg))")
+            dp, ev = peel(a[1]), peel(a[2])
+            dd = dict(dp[2]) if dp[0] == "agg" and dp[1].startswith("cosmwasm_std::Deps") else {}
+            ed = dict(ev[2]) if ev[0] == "agg" and ev[1].startswith("cosmwasm_std::Env") else {}
+            so, qo, ci = peel(dd.get("storage", ("?",))), peel(dd.get("querier", ("?",))), peel(ed.get("contract", ("?",)))
+            ok = is_param(a[3], "msg") and \
+                so[0] == "call" and so[1] == "wasm::Wasm::contract_storage" and is_param(so[2][1], "storage") and is_param(so[2][2], "address") and \
+                qo[0] == "call" and qo[1] == "cosmwasm_std::QuerierWrapper::new" and is_param(qo[2][0], "querier") and \
+                is_param(ed.get("block", ("?",)), "block") and ci[0] == "agg" and is_param(dict(ci[2]).get("address", ("?",)), "address")
+        ctx.ob(R, k2, "contract-queried-with-the-message", ok,
+               "query_smart does not run handler.query(deps, env, msg) on the window, querier, block and address it was given", fn=g,
+               sample="handler.query(Deps{contract_storage(storage, address), api, querier}, Env{block, address}, msg)")
 
 
 def r9(ctx, cfg):
